@@ -52,7 +52,7 @@ const ARRAY_LAWS: &[(&str, &str)] = &[
     ("flatten", "flatten == [flattens] and flatten(0) == [flattens(0)] and flatten(1) == [flattens(1)] and flatten(2) == [flattens(2)]"),
     ("flatten depth", "(flatten | all(.[]; type != \"array\")) and flatten(0) == ."),
     ("contains reflexive", "contains(.) and inside(.) and contains([]) and ([] | inside(.))"),
-    ("contains sub", ". as $a | all((.[:1], .[1:], [.[0]?], map(arrays), map(select(type == \"object\") | {})) as $x | ($a | contains($x)) == ($a | mcontains($x)) and ($x | inside($a)) == ($a | contains($x)); .)"),
+    ("contains sub", ". as $a | all((.[:1], .[1:], [.[0]?], map(arrays), map(select(type == \"object\") | {}), (. + .), (.[:1] + .[:1] + . + .[:1]), [.[] | strings | .[:1], .[1:], .], map(arrays | . + .), map(objects | map_values(arrays | . + .)), [.[] | select(type != \"number\")] + [0, 0]) as $x | ($a | contains($x)) == ($a | mcontains($x)) and ($x | inside($a)) == ($a | contains($x)); .)"),
     ("has", ". as $a | all(range(-length; length); . as $i | $a | has($i)) and (has(length) | not) and (has(-length - 1) | not) and all(keys[]; . as $k | $a | has($k))"),
     ("in", "all(range(-1; length + 1); . as $i | in($a0) == ($a0 | has($i)))"),
     ("bsearch", "sort as $s | all(($s[], 0, \"a\", null, [0], {\"a\": 0}, 0.5, \"b\") as $x | ($s | bsearch($x)) as $i | if $i >= 0 then $s[$i] == $x else ($s | .[-$i - 1:-$i - 1] = [$x]) == ($s + [$x] | sort) and (any($s[]; . == $x) | not) end; .)"),
@@ -88,7 +88,7 @@ const OBJECT_LAWS: &[(&str, &str)] = &[
     ("add objects", "(. + {}) == . and ({} + .) == . and (. + .) == . and (. * .) == . and (. * {}) == ."),
     ("pick", ". as $o | all(keys_unsorted[]; . as $k | ($o | pick(.[$k])) == {($k): $o[$k]})"),
     ("pick product", ". as $o | [keys_unsorted[]] as $ks | if ($ks | length) < 2 then true else pick(.[$ks[0]], .[$ks[1]]) == (pick(.[$ks[0]]) * pick(.[$ks[1]])) end"),
-    ("contains", "contains(.) and contains({}) and inside(.) and (. as $o | all(keys_unsorted[]; . as $k | $o | contains({($k): $o[$k]})))"),
+    ("contains", "contains(.) and contains({}) and inside(.) and contains(map_values(if isarray then . + . else . end)) and (. as $o | map_values(if isarray then . + . + . else . end) | inside($o)) and (. as $o | all(keys_unsorted[]; . as $k | $o | contains({($k): $o[$k]})))"),
     ("sort_by on values", "([.[]] | sort) == (to_entries | sort_by(.value) | map(.value))"),
     ("add values", "cap(add) == cap(reduce .[] as $x (null; . + $x))"),
     ("paths", "[paths] == [skip(1; path(..))] and ([paths] | length) == ([..] | length) - 1"),
